@@ -143,6 +143,7 @@ type inboxRoles struct {
 	ops         []atomicOp
 	schedule    *ssa.Function // contains the CAS guarding Scheduler.Schedule
 	schedCAS    *atomicOp
+	schedSites  []*atomicOp // every CAS(idle->running) whose success guards a Schedule hand-off (one per function when the scheduling function was inlined)
 	worker      *ssa.Function // function handed to Scheduler.Schedule
 	workerWrap  *ssa.Function // the forwarding closure actually handed over, if any
 	loop        *ssa.Function // calls PopN and Processer.Invoke
@@ -217,42 +218,75 @@ func (w *World) findInboxRolesUncached() *inboxRoles {
 	}
 	evS := w.evSchedule()
 	// scheduling function: CAS whose success edge guards the Schedule hand-off
+	// for every Schedule hand-off: the innermost CAS whose success edge guards it
+	seenG := map[*FG]bool{}
 	for i := range ir.ops {
-		op := &ir.ops[i]
-		if op.kind != "CAS" {
+		g := ir.ops[i].g
+		if seenG[g] {
 			continue
 		}
-		sched := w.Nodes(op.g, Ev{Name: evS.Name, M: evS.M, Shallow: true}, false)
-		se := op.successEdges()
+		seenG[g] = true
+		sched := w.Nodes(g, Ev{Name: evS.Name, M: evS.M, Shallow: true}, false)
 		for _, n := range members(sched) {
-			if len(se) > 0 && op.g.OnlyVia(se, n) {
-				if ir.schedule != nil && ir.schedule != op.fn {
-					bad("more than one scheduling function: %s and %s", fname(ir.schedule), fname(op.fn))
+			var guard *atomicOp
+			for k := range ir.ops {
+				op := &ir.ops[k]
+				if op.g != g || op.kind != "CAS" {
+					continue
 				}
-				ir.schedule, ir.schedCAS = op.fn, op
-				ir.idle, ir.running = op.old, op.new
-				// the function handed over
-				cc := callOf(op.g.ins[n])
-				if len(cc.Args) == 1 {
-					if mc, ok := cc.Args[0].(*ssa.MakeClosure); ok {
-						wf := mc.Fn.(*ssa.Function)
-						// bound method wrapper, or a literal closure that only forwards -> the method
-						if t := thinWrapperTarget(wf); t != nil {
-							ir.workerWrap = wf
-							wf = t
-						}
-						ir.worker = wf
+				se := op.successEdges()
+				if len(se) == 0 || !g.OnlyVia(se, n) {
+					continue
+				}
+				// keep the CAS closest to the hand-off (the one behind all other guarding CASes)
+				if guard == nil || g.OnlyVia(guard.successEdges(), op.node) {
+					guard = op
+				}
+			}
+			if guard == nil {
+				continue
+			}
+			op := guard
+			if ir.idle != "" && (ir.idle != op.old || ir.running != op.new) {
+				bad("scheduling sites disagree on the idle/running values: %s->%s and %s->%s", ir.idle, ir.running, op.old, op.new)
+			}
+			ir.schedSites = append(ir.schedSites, op)
+			ir.schedule, ir.schedCAS = op.fn, op
+			ir.idle, ir.running = op.old, op.new
+			// the function handed over
+			cc := callOf(g.ins[n])
+			if len(cc.Args) == 1 {
+				if mc, ok := cc.Args[0].(*ssa.MakeClosure); ok {
+					wf := mc.Fn.(*ssa.Function)
+					// bound method wrapper, or a literal closure that only forwards -> the method
+					if t := thinWrapperTarget(wf); t != nil {
+						ir.workerWrap = wf
+						wf = t
 					}
+					ir.worker = wf
 				}
 			}
 		}
-		if op.fn == ir.start {
+	}
+	for i := range ir.ops {
+		op := &ir.ops[i]
+		if op.kind == "CAS" && op.fn == ir.start && ir.startCAS == nil {
 			ir.startCAS = op
 			ir.starting = op.new
 		}
 	}
 	if ir.schedule == nil || ir.idle == "" || ir.running == "" {
 		bad("no CAS(idle->running) guarding Scheduler.Schedule found")
+	}
+	// several functions with their own CAS + Schedule: the scheduling function was written out at its call sites
+	{
+		fns := map[*ssa.Function]bool{}
+		for _, op := range ir.schedSites {
+			fns[op.fn] = true
+		}
+		if len(fns) > 1 {
+			ir.schedule = nil
+		}
 	}
 	if ir.worker == nil {
 		bad("the function handed to Scheduler.Schedule could not be resolved")
@@ -333,4 +367,24 @@ func thinWrapperTarget(fn *ssa.Function) *ssa.Function {
 		}
 	}
 	return target
+}
+
+
+// evSched: a schedule attempt — a call of the scheduling function, or (when it is written out in place) the
+// CAS(idle->running) that guards a hand-off.
+func (ir *inboxRoles) evSched() Ev {
+	calls := map[ssa.Instruction]bool{}
+	for _, op := range ir.schedSites {
+		calls[op.call] = true
+	}
+	sched := ir.schedule
+	return Ev{Name: "schedule-attempt", M: func(in ssa.Instruction) bool {
+		if sched != nil {
+			if c := callOf(in); c != nil && c.StaticCallee() == sched {
+				return true
+			}
+			return false
+		}
+		return calls[in]
+	}}
 }
